@@ -127,6 +127,14 @@ Section Pathlines.
     | Ok false => Ok (map (fun _ => zero) pt)
     end.
 
+  (* _ivp_jac: the velocity-gradient callable inside the box, an n x n block of zeros outside *)
+  Definition ivp_jac (get_gradient : point -> res (arr F)) (mn mx : point) (pt : point) : res (arr F) :=
+    match is_inside pt mn mx with
+    | Err e => Err e
+    | Ok true => get_gradient pt
+    | Ok false => Ok (mk_arr zero (repeat zero (length pt * length pt)))
+    end.
+
   (* the terminal event of get_pathline.  State = the two `nonlocal` variables. *)
   Record ev_state := mk_ev { t_prev : F; strain : F }.
 
@@ -171,14 +179,50 @@ Section Pathlines.
   (* post-processing of solve_ivp's result: path.t (starts at 0, runs backwards) *)
   Definition ofnat_p (n : nat) : F := ofZ (Z.of_nat n).
 
-  (* np.linspace(a, b, n + 1): a + i * ((b - a) / n) for i < n, and exactly b at the end *)
+  (* np.linspace(a, b, n + 1): a + i * ((b - a) / n) for i < n, and exactly b at the end;
+     n = 0 (one sample): [a] *)
   Definition linspace (a b : F) (n : nat) : list F :=
-    let step := (b - a) / ofnat_p n in
-    map (fun i => a + ofnat_p i * step) (seq 0 n) ++ [b].
+    match n with
+    | O => [a]
+    | S _ => let step := (b - a) / ofnat_p n in
+             map (fun i => a + ofnat_p i * step) (seq 0 n) ++ [b]
+    end.
 
   Definition timestamps (ts : list F) (regular_steps : option nat) : list F :=
     match regular_steps with
     | None => rev ts
     | Some n => linspace (last ts zero) (hd zero ts) n
     end.
+
+  (* everything get_pathline hands to scipy.integrate.solve_ivp, as the flat vector that the
+     translator reads off the captured call (layout: REQUEST_LAYOUT of translator/specs_pathlines.py):
+     t_span (2 entries + its length), y0, atol, rtol, method ordinal (RK45 0, RK23 1, DOP853 2,
+     Radau 3, BDF 4, LSODA 5), number of events, events[0].terminal, events[0].direction (0: not
+     set), dense_output, fun is _ivp_func, jac is _ivp_jac, args = (get_velocity,
+     get_velocity_gradient, min_coords, max_coords), first_step / max_step (0: not passed), number
+     of other keyword arguments, the initial state of the event (previous time, strain), number of
+     warnings logged *)
+  Definition t_forever : F := ofZ (-3155760000000000).          (* -100e6 * 365.25 * 8.64e4 s *)
+  Definition default_atol : F := ofZ 3022314549036573 / ofZ 302231454903657293676544.   (* binary64 1e-8 *)
+  Definition default_rtol : F := ofZ 5902958103587057 / ofZ 590295810358705651712.      (* binary64 1e-5 *)
+
+  Definition solver_request (fl : point) (ms atol rtol first_step max_step : F) (method warnings : Z) : list F :=
+    [zero; t_forever; ofZ 2] ++ fl ++
+    [atol; rtol; ofZ method; one; one; zero; one; one; one; one; first_step; max_step; zero; zero; ms; ofZ warnings].
+
+  (* get_pathline(final_location, u, L, min, max, max_strain) *)
+  Definition request_default (fl : point) (ms : F) : list F :=
+    solver_request fl ms default_atol default_rtol zero zero 5 0.
+  (* ... with atol, rtol, first_step, max_step, method="Radau" and the four ignored keyword arguments
+     (events, jac, dense_output, args: one warning each) *)
+  Definition request_kw (fl : point) (ms atol rtol first_step max_step : F) : list F :=
+    solver_request fl ms atol rtol first_step max_step 3 4.
+
+  (* named fields of a request for a point of dimension n *)
+  Definition rq_t0 (r : list F) : F := nth 0 r zero.
+  Definition rq_t1 (r : list F) : F := nth 1 r zero.
+  Definition rq_y0 (n : nat) (r : list F) : list F := firstn n (skipn 3 r).
+  Definition rq_field (n k : nat) (r : list F) : F := nth (3 + n + k) r zero.
+  (* k: 0 atol, 1 rtol, 2 method, 3 #events, 4 terminal, 5 direction, 6 dense_output, 7 fun, 8 jac,
+        9 args, 10 first_step, 11 max_step, 12 #other kwargs, 13 event time0, 14 event strain0, 15 #warnings *)
 End Pathlines.
